@@ -2,7 +2,7 @@
    GetAll, and Clients.GetByListener called Len, while holding the read lock that the callee
    takes again.  The pre-fix shape is rejected by the checker, and the executions it describes do
    deadlock in the machine: the reader is between its two RLocks when a writer announces itself. *)
-From Coq Require Import List NArith.
+From Coq Require Import List NArith String.
 From MV Require Import Conc.Locks Conc.LocksProofs.
 Import ListNotations.
 Open Scope N_scope.
@@ -29,8 +29,8 @@ Definition reader_evs : list ev := [EAcq 7 R; EEnter 1; EAcq 7 R; ERel 7 R; EExi
 Definition writer_evs : list ev := [EAcq 7 W; ERel 7 W].
 
 Lemma prefix_conforms :
-  conforms (fun _ => 0) prefix_table [(0, [])] reader_evs = true /\
-  conforms (fun _ => 0) prefix_table [(2, [])] writer_evs = true.
+  conforms (fun _ => 0) prefix_table [] [(0, [])] reader_evs = true /\
+  conforms (fun _ => 0) prefix_table [] [(2, [])] writer_evs = true.
 Proof. vm_compute. split; reflexivity. Qed.
 
 (* schedule: the reader takes its first RLock, the writer calls Lock (announced, waits for the
@@ -44,3 +44,19 @@ Proof. apply deadlockedb_sound. vm_compute. reflexivity. Qed.
 Lemma prefix_other_schedule_completes :
   all_done (run [0; 0; 0; 0; 1; 1; 1]%nat [thread_of reader_evs; thread_of writer_evs]).
 Proof. intros t Ht. vm_compute in Ht. destruct Ht as [<-|[<-|[]]]; reflexivity. Qed.
+
+(* ---- an unbalanced function (seeded change to Client.flushIdle: Lock; if queue non-empty return;
+        flush; Unlock): the early return leaves the client's lock held.  The goroutine that leaked
+        it finishes, every later Lock() on that client waits for ever. ---- *)
+Definition leak_table : lock_table := [ mk_site 0 [] (Acquire 0 W) ].
+
+Lemma leak_rejected :
+  lock_discipline_ok leak_table = true /\                         (* nesting alone sees nothing *)
+  lock_discipline_ok_full [(0, "Client.flushIdle"%string)] [0] leak_table = false /\
+  lock_discipline_ok_full [(0, "Client.flushIdle"%string)] [] leak_table = true.
+Proof. vm_compute. repeat split. Qed.
+
+(* thread 0 = flushIdle taking the early return, thread 1 = the next WritePacket *)
+Lemma leak_deadlocks :
+  deadlocked (run [0; 0; 1]%nat [mk_thread [] false [Acq 7 W]; mk_thread [] false [Acq 7 W; Rel 7 W]]).
+Proof. apply deadlockedb_sound. vm_compute. reflexivity. Qed.
